@@ -1217,3 +1217,126 @@ def annotate_constructor_calls(trees: dict[str, ast.Module]) -> int:
                 call.args = [by[nm] for nm in lead]
                 call.keywords = [ast.keyword(arg=nm, value=by[nm]) for nm, _ in fields if nm in by and nm not in lead]
     return n
+
+
+# ------------------------------------------------------------------------------------------------------------------
+# N7: keyword arguments of calls to package functions -> positional where the callee's signature is unambiguous
+#
+# ``f(a, b)`` and ``f(x=a, y=b)`` are the same call.  A call is rewritten only when every function or method of that
+# name defined in the package has the same parameter list (no *args/**kwargs) - then the name identifies the signature
+# without knowing the receiver's type.  The leading run of parameters is made positional, the rest stay keywords.
+
+
+def _signatures(trees: dict[str, ast.Module]) -> dict[str, list[str] | None]:
+    sigs: dict[str, list[str] | None] = {}
+    for tree in trees.values():
+        for cls in [None] + [n for n in ast.walk(tree) if isinstance(n, ast.ClassDef)]:
+            body = tree.body if cls is None else cls.body
+            for fn in body:
+                if not isinstance(fn, (ast.FunctionDef, ast.AsyncFunctionDef)):
+                    continue
+                a = fn.args
+                if a.vararg or a.kwarg or a.posonlyargs:
+                    params = None
+                else:
+                    names = [x.arg for x in a.args]
+                    deco = {d.id for d in fn.decorator_list if isinstance(d, ast.Name)}
+                    if cls is not None and "staticmethod" not in deco and names:
+                        names = names[1:]
+                    params = names + ["*"] + [x.arg for x in a.kwonlyargs] if a.kwonlyargs else names
+                if fn.name in sigs and sigs[fn.name] != params:
+                    sigs[fn.name] = None
+                elif fn.name not in sigs:
+                    sigs[fn.name] = params
+    return sigs
+
+
+_FOREIGN = {"get", "pop", "update", "join", "format", "index", "count", "sort", "sorted", "replace", "copy", "items", "keys", "values", "append", "extend", "add", "where", "select_from", "order_by", "limit", "offset", "distinct", "subquery", "union", "union_all", "literal", "between", "cast", "field", "dataclass"}
+
+
+def _call_params(call: ast.Call, sigs) -> tuple[str, list[str], dict[str, ast.expr]] | None:
+    """(callee name, its parameter list, argument by parameter) for a call whose callee name has one signature."""
+    if getattr(call, "_by_field", None) is not None:
+        return None
+    f = call.func
+    name = f.attr if isinstance(f, ast.Attribute) else f.id if isinstance(f, ast.Name) else None
+    if not name or name in _FOREIGN or name.startswith("__"):
+        return None
+    params = sigs.get(name)
+    if not params or any(isinstance(a, ast.Starred) for a in call.args) or any(k.arg is None for k in call.keywords):
+        return None
+    pos_params = params[: params.index("*")] if "*" in params else params
+    if len(call.args) > len(pos_params):
+        return None
+    by = dict(zip(pos_params, call.args))
+    for k in call.keywords:
+        if k.arg in by or k.arg not in params:
+            return None
+        by[k.arg] = k.value
+    return name, params, by
+
+
+def call_styles(trees: dict[str, ast.Module]) -> dict[str, str]:
+    """"<callee>.<param>" -> 'pos' | 'kw' | 'mixed': how the tree passes each parameter (used to record the baseline)."""
+    sigs = _signatures(trees)
+    seen: dict[str, set[str]] = {}
+    for tree in trees.values():
+        for call in ast.walk(tree):
+            if not isinstance(call, ast.Call):
+                continue
+            r = _call_params(call, sigs)
+            if r is None:
+                continue
+            name, params, by = r
+            kws = {k.arg for k in call.keywords}
+            for p in by:
+                seen.setdefault(f"{name}.{p}", set()).add("kw" if p in kws else "pos")
+    return {k: (next(iter(v)) if len(v) == 1 else "mixed") for k, v in sorted(seen.items())}
+
+
+_STYLES: dict[str, str] | None = None
+
+
+def baseline_styles() -> dict[str, str]:
+    global _STYLES
+    if _STYLES is None:
+        path = os.path.join(os.path.dirname(os.path.abspath(__file__)), "baseline_functions.json")
+        try:
+            with open(path, encoding="utf-8") as f:
+                _STYLES = dict(json.load(f).get("call_styles", {}))
+        except OSError:
+            _STYLES = {}
+    return _STYLES
+
+
+def positional_calls(trees: dict[str, ast.Module]) -> int:
+    """Spell every call of an unambiguously-signed package function the way the verified baseline spells it
+    (parameter by parameter: positionally or by keyword), and let `astutil.kw` find arguments by parameter name."""
+    sigs = _signatures(trees)
+    styles = baseline_styles()
+    n = 0
+    for tree in trees.values():
+        for call in ast.walk(tree):
+            if not isinstance(call, ast.Call):
+                continue
+            r = _call_params(call, sigs)
+            if r is None:
+                continue
+            name, params, by = r
+            pos_params = params[: params.index("*")] if "*" in params else params
+            cur_kw = {k.arg for k in call.keywords}
+            lead = []
+            for p in pos_params:
+                if p not in by:
+                    break
+                want = styles.get(f"{name}.{p}")
+                if want == "kw" or (want not in ("pos",) and p in cur_kw):
+                    break
+                lead.append(p)
+            new_args = [by[p] for p in lead]
+            new_kws = [ast.keyword(arg=p, value=by[p]) for p in params if p != "*" and p in by and p not in lead]
+            if [id(a) for a in new_args] != [id(a) for a in call.args] or len(new_kws) != len(call.keywords):
+                n += 1
+            call.args, call.keywords = new_args, new_kws
+            call._by_param = by  # type: ignore[attr-defined]
+    return n
